@@ -100,6 +100,17 @@ def run(ctx) -> None:
             return any(c in r for c in cmp_nodes)
 
         skip_ok = (not live(False, True)) and live(True, True) and live(False, False) and live(True, False)
+        # ... and it is the ONLY skip: with the accumulator rule out of the way (gated node), every input's versions
+        # are compared — no other class of inputs (bound names, defaults, ...) is exempt from staleness
+        from .common import must_reach_in_iteration
+
+        in_loops = [n for n in scfg.nodes if n.kind == "for" and src(n.ast.iter).endswith(".inputs")]
+        valg = {v: True for v in gated_vars}
+        for a in member_atoms:
+            valg[a] = False
+            valg[a.replace(" in ", " not in ", 1)] = True
+        every = bool(in_loops) and all(must_reach_in_iteration(scfg, lp_, cmp_nodes, valg) for lp_ in in_loops)
+        rep.add("C04.R3", f"{stale.qname}:every-input-compared", every, stale.loc(), "apart from the accumulator rule every input of the node takes part in the staleness comparison" if every else "some inputs are skipped by the staleness comparison for another reason than the accumulator rule (e.g. names that are bound): a bound loop seed that the body re-produces no longer makes the gate and the body stale, the loop stops after one iteration")
     rep.add("C04.R3", f"{stale.qname}:accumulator-skip", skip_ok, stale.loc(), "self-produced inputs are skipped for ungated nodes only (membership in the producer set)" if skip_ok else "the accumulator skip is not 'ungated and node in self_producers[param]'")
     # monotone versions
     n_w = 0
